@@ -28,6 +28,9 @@ class Libsecp256k1Exception(Exception):
     pass
 
 
+CALLS = [0]      # number of calls into the stub (liveness probe of the back-end selection)
+
+
 class _Pubkey:
     """Opaque 64-byte internal public key of the real wrapper; here: an affine point."""
     __slots__ = ("pt",)
@@ -55,12 +58,14 @@ def _pk(v):
 
 
 def ec_seckey_verify(seckey):
+    CALLS[0] += 1
     k = _b32("seckey", seckey)
     if k == 0 or k >= secp.N:
         raise Libsecp256k1Exception("secret key is invalid")
 
 
 def ec_pubkey_create(seckey):
+    CALLS[0] += 1
     k = _b32("seckey", seckey)
     if k == 0 or k >= secp.N:
         raise Libsecp256k1Exception("secret key is invalid")
@@ -68,6 +73,7 @@ def ec_pubkey_create(seckey):
 
 
 def ec_pubkey_serialize(pubkey, compressed=True):
+    CALLS[0] += 1
     p = _pk(pubkey).pt
     if not isinstance(compressed, bool):
         raise ValueError("'compressed' must be of type bool")
@@ -77,6 +83,7 @@ def ec_pubkey_serialize(pubkey, compressed=True):
 
 
 def ec_pubkey_parse(pubkey_ser):
+    CALLS[0] += 1
     if not isinstance(pubkey_ser, bytes):
         raise ValueError("'pubkey_ser' must be of type bytes")
     if len(pubkey_ser) not in (33, 65):
@@ -95,6 +102,7 @@ def ec_pubkey_parse(pubkey_ser):
 
 
 def ec_seckey_tweak_add(seckey, tweak32):
+    CALLS[0] += 1
     k = _b32("seckey", seckey)
     t = _b32("tweak32", tweak32)
     if k == 0 or k >= secp.N or t >= secp.N or (k + t) % secp.N == 0:
@@ -104,6 +112,7 @@ def ec_seckey_tweak_add(seckey, tweak32):
 
 
 def ec_pubkey_tweak_add(pubkey, tweak32):
+    CALLS[0] += 1
     p = _pk(pubkey)
     t = _b32("tweak32", tweak32)
     res = secp.add(secp.mul_g(t), p.pt) if t < secp.N else None
